@@ -37,3 +37,15 @@ Print Assumptions C09_reference_by_variant.
 (* non-vacuity: 'Foo  Bar' and 'foo bar' have the same key *)
 Example C09_demo : ToLinkReference [70;111;111;32;32;66;97;114] = ToLinkReference [102;111;111;32;98;97;114].
 Proof. vm_compute. reflexivity. Qed.
+
+(* ---------------- block independence itself, on a fragment, for EVERY pair of documents of it:
+   a plain document (paragraphs of words and soft breaks), an empty line, another plain document
+   convert to the concatenation of the two conversions - about the whole Convert model *)
+Require Import GM.model.Html GM.model.SpecDoc GM.model.ParseI GM.proofs.SpecParaConform GM.proofs.SpecQuoteConform.
+Theorem C09_plain_documents_independent : forall c fin d1 d2 o1 o2,
+  hardwraps c = false -> plain_doc d1 = true -> plain_doc d2 = true ->
+  ConvertModel c (md_of false true d1) = Ok o1 ->
+  ConvertModel c (md_of false fin d2) = Ok o2 ->
+  ConvertModel c (md_of false true d1 ++ nl ++ md_of false fin d2) = Ok (o1 ++ o2).
+Proof. exact plain_docs_independent. Qed.
+Print Assumptions C09_plain_documents_independent.
